@@ -285,6 +285,7 @@ func (vc *VC) evalSelector(st *State, x *ast.SelectorExpr) Term {
 					vc.oblige(st, "safe-nil", exprString(x), vc.pos(x), not(eq(cur.S, "0")), nil)
 					et := vc.ts.apply(pt.Elem())
 					stt := under(et).(*types.Struct)
+					vc.checkGuard(st, et, stt.Field(idx).Name(), cur.S, false, x)
 					cur = vc.loadField(st, et, stt.Field(idx), cur.S)
 				} else {
 					stt := under(t).(*types.Struct)
@@ -503,6 +504,7 @@ func (vc *VC) assign(st *State, lhs ast.Expr, v Term) {
 			stt := under(et).(*types.Struct)
 			f := stt.Field(sel.Index()[0])
 			vc.checkImmutableWrite(st, et, ref.S, lhs)
+			vc.checkGuard(st, et, f.Name(), ref.S, true, lhs)
 			vc.storeField(st, et, f, ref.S, vc.coerce(v, vc.ts.apply(f.Type())))
 			return
 		}
@@ -528,6 +530,7 @@ func (vc *VC) assign(st *State, lhs ast.Expr, v Term) {
 			mi := vc.mapInfo(bt)
 			k := vc.coerce(vc.evalExpr(st, x.Index), mi.K)
 			vc.oblige(st, "safe-mapwrite", exprString(lhs), vc.pos(lhs), not(eq(ref.S, "0")), nil)
+			vc.checkGuardExpr(st, x.X, true)
 			vc.mapStore(st, mi, ref.S, k.S, vc.coerce(v, mi.V))
 			return
 		case *types.Slice:
@@ -583,3 +586,46 @@ func (vc *VC) checkImmutableWrite(st *State, structT types.Type, ref string, at 
 }
 
 var _ = strings.TrimSpace
+
+// checkGuard: accesses to fields declared `guarded Struct.field by mu` need the lock (read: any mode,
+// write: exclusive), unless the object was allocated in this activation (not yet shared).
+func (vc *VC) checkGuard(st *State, structT types.Type, field, ref string, write bool, at ast.Node) {
+	n, ok := structT.(*types.Named)
+	if !ok {
+		return
+	}
+	mu, ok := vc.p.con.Guarded[n.Obj().Name()+"."+field]
+	if !ok {
+		return
+	}
+	hn := vc.lockHeapName(structT, mu)
+	h := vc.heapGet(st, hn, "(Array Int Int)", nil)
+	cur := sel(h.S, ref)
+	need := "(>= " + cur + " 1)"
+	what := "read"
+	if write {
+		need = eq(cur, "2")
+		what = "write"
+	}
+	vc.oblige(st, "lockset", fmt.Sprintf("%s of %s.%s requires %s to be held", what, n.Obj().Name(), field, mu), vc.pos(at),
+		or("(>= "+ref+" alloc@0)", need), nil)
+}
+
+// checkGuardExpr: e is an expression `owner.field`; writing through it (map store/delete) needs the write lock.
+func (vc *VC) checkGuardExpr(st *State, e ast.Expr, write bool) {
+	se, ok := ast.Unparen(e).(*ast.SelectorExpr)
+	if !ok {
+		return
+	}
+	sel, ok := vc.info.Selections[se]
+	if !ok || sel.Kind() != types.FieldVal || len(sel.Index()) != 1 {
+		return
+	}
+	pt, ok := under(vc.typeOf(se.X)).(*types.Pointer)
+	if !ok {
+		return
+	}
+	sc := st.clone()
+	owner := vc.evalExprQuiet(sc, se.X)
+	vc.checkGuard(st, vc.ts.apply(pt.Elem()), se.Sel.Name, owner.S, write, e)
+}
